@@ -2261,6 +2261,18 @@ class Emitter:
     def m_list_split_first(self, e, rt, rty, env, k):
         return k("(match %s with [] => None | x :: t => Some (x, t) end)" % rt, ("opt", ("tuple", (rty[1], rty))), env)
 
+    def m_list_last(self, e, rt, rty, env, k):
+        """`s.last()` on a slice / array / Vec: `None` when empty, else the element at `len - 1` (no panic)"""
+        if e.args:
+            raise EmitError("last takes no argument")
+        return k("(nth_error %s (Nat.pred (length %s)))" % (rt, rt), ("opt", rty[1]), env)
+
+    def m_list_first(self, e, rt, rty, env, k):
+        """`s.first()`: `None` when empty, else the element at 0 (no panic)"""
+        if e.args:
+            raise EmitError("first takes no argument")
+        return k("(nth_error %s 0%%nat)" % rt, ("opt", rty[1]), env)
+
     def m_list_position(self, e, rt, rty, env, k):
         cl = e.args[0]
         if cl.kind != "closure" or len(cl.params) != 1:
